@@ -641,7 +641,15 @@ static void make_file(vrng *r, int kind, uint32_t dict, unsigned nblocks, vbuf *
 		for (unsigned st = 0; st < ns; ++st) {
 			vbuf part = {0}; gen_data(r, &part, 20000 + vrng_below(r, 200000), -1, 4096);
 			lzma_stream e = LZMA_STREAM_INIT; lzma_ret ret;
-			lzma_filter f1[2] = { { LZMA_FILTER_LZMA2, &o }, { LZMA_VLI_UNKNOWN, NULL } };
+			// the Streams declare different dictionary sizes (mostly shrinking from Stream to Stream): a cached worker
+			// of an earlier Stream is then bigger or smaller than what the next Block needs
+			lzma_options_lzma o2 = o;
+			if (dict <= (64u << 20) && vrng_chance(r, 2, 3)) {
+				static const uint32_t ds[] = { 8u << 20, 4u << 20, 1u << 20, 256u << 10, 64u << 10 };
+				unsigned k0 = vrng_below(r, 3) + st; if (k0 > 4) k0 = 4;
+				o2.dict_size = vrng_chance(r, 3, 4) ? ds[k0] : ds[vrng_below(r, 5)];
+			}
+			lzma_filter f1[2] = { { LZMA_FILTER_LZMA2, &o2 }, { LZMA_VLI_UNKNOWN, NULL } };
 			bool mtenc = (st == 0) ? vrng_chance(r, 3, 4) : vrng_chance(r, 1, 2);
 			if (mtenc) { lzma_mt m = { .threads = 2, .block_size = 16384u << vrng_below(r, 3), .filters = f1, .check = LZMA_CHECK_CRC32 }; ret = lzma_stream_encoder_mt(&e, &m); }
 			else ret = lzma_stream_encoder(&e, f1, LZMA_CHECK_CRC32);
@@ -808,7 +816,7 @@ dec_spec spec; dec_spec_for(&spec, dk, NULL); spec.file_size = file.n;
 			}
 			if (dk == D_STREAM_MT && sp.memlimit_threading != UINT64_MAX && sp.memlimit == UINT64_MAX) {
 				// single-thread need = what lzma_stream_decoder used (approximated by `need` of an ST run below)
-				dec_spec st; dec_spec_for(&st, D_STREAM, NULL);
+				dec_spec st; dec_spec_for(&st, D_STREAM, NULL); st.flags = sp.flags;   // (all Streams, like the threaded run)
 				alloc_mon ms; alloc_mon_init(&ms); limited S; run_limited(&st, &file, &ms, &S, false);
 				if (S.peak <= sp.memlimit_threading && L.peak > sp.memlimit_threading + allow) {
 					snprintf(key, sizeof(key), "memlimit-threading-exceeded|stream_mt");
